@@ -217,6 +217,10 @@ func (r *run) signer() {
 				gens:   []func([]byte, func(mutant)){genericMutants},
 				chk:    func(t []byte) bool { ok, _ := s.Check(t); return ok },
 				detail: func(m mutant, mu *Mut) { r.blobCase(k, m.tok, false, mu) }}
+			spec.gens = append(spec.gens, doubleEditMutants(r.rng.Intn, 300*r.scale))
+			if pi < 3 {
+				spec.gens = append(spec.gens, charSubstMutants(""))
+			}
 			if hexmode {
 				spec.fam = "hex"
 				spec.gens = append(spec.gens, hexMutants)
@@ -319,7 +323,8 @@ func (r *run) sessions() {
 			ssv := signer.NewSessions(hmacKeys[k], time.Duration(s.maxttl))
 			ssv.TimeFunc = at(valid)
 			r.sweep(&sweepSpec{fam: "session", tokid: tokid, issued: tok, sample: 3,
-				gens:   []func([]byte, func(mutant)){genericMutants, hexMutants},
+				gens: []func([]byte, func(mutant)){genericMutants, hexMutants, doubleEditMutants(r.rng.Intn, 300*r.scale),
+					charSubstMutants(map[bool]string{true: "", false: "0123456789abcdefABCDEF \n"}[ci == 0])},
 				chk:    func(t []byte) bool { _, _, ok := ssv.Check(string(t)); return ok },
 				canon:  hexCanon(tok),
 				detail: func(m mutant, mu *Mut) { r.sessCheckCase(k, s.maxttl, valid, m.tok, mu) }})
@@ -385,7 +390,8 @@ func (r *run) timeTokens() {
 			tsv := signer.NewTimeSigner(hmacKeys[k], time.Duration(s.window))
 			tsv.TimeFunc = at(s.t0)
 			r.sweep(&sweepSpec{fam: "timetoken", tokid: tokid, issued: tok, sample: 3,
-				gens:   []func([]byte, func(mutant)){genericMutants, hexMutants},
+				gens: []func([]byte, func(mutant)){genericMutants, hexMutants, doubleEditMutants(r.rng.Intn, 300*r.scale),
+					charSubstMutants(map[bool]string{true: "", false: "0123456789abcdefABCDEF \n"}[ci == 0])},
 				chk:    func(t []byte) bool { return tsv.Check(string(t)) },
 				canon:  hexCanon(tok),
 				detail: func(m mutant, mu *Mut) { r.tsCheckCase(k, s.window, s.t0, m.tok, mu) }})
@@ -588,7 +594,7 @@ func (r *run) gate() {
 		r.emit(c)
 		check := func(now int64, t []byte, mu *Mut) {
 			ss.TimeFunc = at(now)
-			gc := &Case{Stream: "authgate", Op: "gatecheck", Fam: "authgate", Key: k, Now: z(now), Tok: hx16(t),
+			gc := &Case{Stream: "authgate", Op: "gatecheck", Fam: "authgate", Key: k, Now: z(now), Tok: hx16(t), MaxTTL: z(s.maxttl),
 				Macs: macsForHex(k, t), Mut: mu}
 			var info *authgate.CredsInfo
 			var err error
@@ -596,10 +602,12 @@ func (r *run) gate() {
 			if err == nil && info != nil && info.Valid && info.User != "" {
 				gc.Obs.Ok = true
 				gc.Obs.Out = hx16([]byte(info.User))
+				gc.Obs.Refresh = info.NeedRefresh
 			}
 			r.emit(gc)
 		}
-		for _, now := range []int64{base, expires - 1, expires, expires + 1} {
+		fifth := s.maxttl / 5
+		for _, now := range []int64{base, expires - 1, expires, expires + 1, expires - fifth - 1, expires - fifth, expires - fifth + 1} {
 			check(now, tok, &Mut{Tok: tokid, Class: "genuine", Same: true})
 		}
 		up := []byte(strings.ToUpper(tk.Token))
